@@ -209,7 +209,7 @@ class RefAC:
             return [self.report(CONTROL, f.msg_id)]
         if cmd == 0x41 and f.frame_type == QUERY:
             b = body[:-1]
-            if len(b) < 21:
+            if len(b) < 8:
                 self.rejected.append((frame, "0x41 body too short"))
                 return []
             if b[1] == 0x21 and b[2] == 0x01 and b[3] == 0x44:
